@@ -14,7 +14,10 @@ from ..lib import coqlit as L
 IMPORTS = ("From LV Require Import Common.Cases GainLoss.RoseTree GainLoss.Replay GainLoss.GetGls "
            "GainLoss.Parsimony GainLoss.GetGLSr GainLoss.TopDown GainLoss.PhyBoGlue GainLoss.GainLossExec.")
 
-WEIGHTS = [(1, 1), (2, 1), (1, 2), (3, 2), (2, 3), (1, 3), (5, 1), (3, 1)]
+WEIGHTS = [(1, 1), (2, 1), (1, 2), (3, 2), (2, 3), (1, 3), (5, 1), (3, 1),
+           # large and non-commensurable pairs (the model is exact over Z): partial weights on both sides of
+           # 100 / 1000, ratios that integer division would change
+           (70, 30), (40, 25), (5, 3), (7, 3), (5, 2), (100, 1), (1, 100), (999, 1000), (30, 70)]
 
 
 # ----------------------------------------------------------------------------
@@ -28,9 +31,20 @@ def nodes(t):
     return [t[0]] + [x for c in t[1] for x in nodes(c)]
 
 
-def newick(t):
+def nm(i, style=None):
+    """Name of node i.  style None: 'n<i>'.  'nfd': a name with a combining mark in DEcomposed spelling
+    (u + U+0308), used identically in the Newick string and the taxa list.  'mixed': upper / lower case
+    initial by parity (case-sensitive and case-insensitive sort orders of the languages then differ)."""
+    if style == "nfd":
+        return "Zu\u0308r%d" % i
+    if style == "mixed":
+        return ("N%d" if i % 2 else "n%d") % i
+    return "n%d" % i
+
+
+def newick(t, style=None):
     def go(u):
-        return ("(" + ",".join(go(c) for c in u[1]) + ")" if u[1] else "") + "n%d" % u[0]
+        return ("(" + ",".join(go(c) for c in u[1]) + ")" if u[1] else "") + nm(u[0], style)
     return go(t) + ";"
 
 
@@ -94,14 +108,17 @@ def count_nodes(s):
     return 1 + sum(count_nodes(c) for c in s)
 
 
-def load(t):
+def load(t, style=None):
     from lingpy.thirdparty import cogent as cg
-    return cg.LoadTree(treestring=newick(t))
+    return cg.LoadTree(treestring=newick(t, style))
 
 
 def nid(name):
-    assert name[0] == "n", name
-    return int(name[1:])
+    """Inverse of nm for every style.  A name that nm cannot have produced (e.g. a renormalised spelling)
+    gets a number no node has, so that events on it are rejected."""
+    import re
+    m = re.fullmatch(r"(?:n|N|Zu\u0308r)(\d+)", name)
+    return int(m.group(1)) if m else 10 ** 6 + sum(map(ord, name))
 
 
 def read_back(node):
@@ -197,9 +214,29 @@ def gen_gls_case(rng, nmin=3, nmax=9):
          "push": rng.random() < 0.5, "md": md,
          "arr": rng.choice(["list", "list", "numpy", "numpy", "tuple"])}
     choose_omit(rng, c)
+    if rng.random() < 0.1:
+        c["names"] = "nfd"
     # the same pattern object is handed to get_gls a second time (missing_data always explicit there)
     c["md2"] = (-1 - c["md"]) if rng.random() < 0.7 else c["md"]
     return c
+
+
+def gen_gls_wide_case(rng, k=None):
+    """One unresolved node with k >= 10 two-leaf clades: more than 1000 combinations of child scenarios."""
+    k = k or rng.choice([10, 10, 11])
+    kids, i = [], 1
+    for _ in range(k):
+        kids.append((1000 + i, [(i, []), (i + 1, [])]))
+        i += 2
+    t = (0, kids)
+    taxa = leaves(t)
+    paps = []
+    for _ in range(k):
+        paps += list(rng.choice([(1, 0), (1, 0), (0, 1), (1, 0), (1, -1), (1, 0)]))
+    g, l = rng.choice([(2, 1), (3, 1), (5, 3), (70, 30), (7, 3)])
+    md = rng.choice([0, -1])
+    return {"kind": "get_gls", "tree": t, "taxa": taxa, "paps": paps, "gpl": rng.choice([2 * k, 1]), "g": g, "l": l,
+            "push": rng.random() < 0.5, "md": md, "md2": md, "arr": "list"}
 
 
 def exhaustive_gls_cases(nleaves, configs, pattern_values=(1, 0, -1)):
@@ -237,8 +274,8 @@ def run_get_gls(case):
     The caller's pattern must be unchanged after each call; both results go to the model comparison,
     which uses the original pattern."""
     from lingpy.compare.phylogeny import get_gls
-    tree = load(case["tree"])
-    taxa = ["n%d" % i for i in case["taxa"]]
+    tree = load(case["tree"], case.get("names"))
+    taxa = [nm(i, case.get("names")) for i in case["taxa"]]
     orig = list(case["paps"])
     kind = case.get("arr", "list")
     if kind == "numpy":
@@ -342,8 +379,8 @@ def exhaustive_glsr_cases(nleaves, modes, gpls=(1, 2), pushes=(True,), mds=(0, -
 
 def run_glsr(case):
     from lingpy.compare.phylogeny import PhyBo
-    tree = load(case["tree"])
-    taxa = ["n%d" % i for i in case["taxa"]]
+    tree = load(case["tree"], case.get("names"))
+    taxa = [nm(i, case.get("names")) for i in case["taxa"]]
     r = tuple(case["r"]) if case["rmode"] == "w" else case["r"]
     res = {"tree": read_back(tree)}
     try:
@@ -389,8 +426,8 @@ def exhaustive_td_cases(nleaves, modes=(1, 2, 3, 4), mds=(0, -1)):
 
 def run_td(case):
     from lingpy.compare.phylogeny import PhyBo
-    tree = load(case["tree"])              # a fresh tree object: lowestCommonAncestor leaves marks behind
-    taxa = ["n%d" % i for i in case["taxa"]]
+    tree = load(case["tree"], case.get("names"))              # a fresh tree object: lowestCommonAncestor leaves marks behind
+    taxa = [nm(i, case.get("names")) for i in case["taxa"]]
     out = PhyBo._get_GLS_top_down(stub(tree, taxa), list(case["paps"]),
                                   **keywords(case, mode=case["mode"], missing_data=case["md"]))
     return {"tree": read_back(tree), "out": [(nid(a), int(b)) for a, b in out]}
@@ -443,6 +480,8 @@ def gen_phybo_case(rng):
          "singletons": rng.random() < 0.5,
          # the reference tree is handed over as a file or as a Newick string
          "tree_file": rng.random() < 0.5}
+    if rng.random() < 0.4:
+        c["names"] = "mixed"         # doculect names of mixed case
     if rng.random() < 0.4:
         # the wordlist file carries a tree of its own (@tree line) with another topology and other
         # internal node names: the explicitly given tree is the reference tree of the analysis
@@ -505,9 +544,9 @@ def derive_patterns(rows, taxa):
     return pats
 
 
-def phybo_newick(t):
+def phybo_newick(t, style=None):
     """The root must be called 'root' (PhyBo's radial layout looks it up by that name)."""
-    return newick(t).rsplit(")", 1)[0] + ")root;"
+    return newick(t, style).rsplit(")", 1)[0] + ")root;"
 
 
 def run_phybo(case):
@@ -521,6 +560,7 @@ def run_phybo(case):
     from ..lib import env
     t = case["tree"]
     root = t[0]
+    style = case.get("names")
     base = os.path.join(env.BUILD, "run", "phybo_tmp")
     os.makedirs(base, exist_ok=True)
     d = tempfile.mkdtemp(dir=base)
@@ -528,18 +568,18 @@ def run_phybo(case):
         path = os.path.join(d, "d.qlc")
         with open(path, "w") as f:
             if case.get("embedded"):
-                f.write("@tree:" + phybo_newick(case["embedded"]) + "\n")
+                f.write("@tree:" + phybo_newick(case["embedded"], style) + "\n")
             f.write("ID\tDOCULECT\tCONCEPT\tIPA\tCOGID\n")
             for wid, lang, con, cog in case["rows"]:
-                f.write("%d\tn%d\tc%d\tw\t%d\n" % (wid, lang, con, cog))
+                f.write("%d\t%s\tc%d\tw\t%d\n" % (wid, nm(lang, style), con, cog))
         items = []
         logging.disable(logging.CRITICAL)
         with contextlib.redirect_stderr(io.StringIO()):
-            tree_arg = phybo_newick(t)
+            tree_arg = phybo_newick(t, style)
             if case.get("tree_file"):
                 tree_arg = os.path.join(d, "reference.tre")
                 with open(tree_arg, "w") as f:
-                    f.write(phybo_newick(t))
+                    f.write(phybo_newick(t, style))
             phy = PhyBo(path, tree=tree_arg, output_dir=os.path.join(d, "out"),
                         singletons=case["singletons"])
 
@@ -556,7 +596,7 @@ def run_phybo(case):
             # the REFERENCE tree: the one the caller passed, read through cogent from the same Newick text,
             # never the tree the object says it uses
             from lingpy.thirdparty import cogent as cg
-            tree_read = rb(cg.LoadTree(treestring=phybo_newick(t)))
+            tree_read = rb(cg.LoadTree(treestring=phybo_newick(t, style)))
             taxa = [name_id(x) for x in phy.taxa]
             derived = derive_patterns(case["rows"], taxa)
             observed, coded_ok = {}, {}
